@@ -1,10 +1,11 @@
-//go:build verif
+//go:build verif && verif_c10wb
 
 package callbacks
 
 import "context"
 
-// Hooks of the verification framework (/verif, property C10). Add-only, compiled with -tags verif.
+// Hooks of the verification framework (/verif, property C10). Add-only, compiled with -tags verif,verif_c10wb
+// (the white-box group of C10, see compose/verif_c10.go).
 
 // VerifC10CtxWithManager installs a manager whose handler slice is exactly hs: the caller
 // chooses its length and its capacity (spare capacity is what makes aliasing observable).
